@@ -100,7 +100,7 @@ class Validator:
     def _register(self, owner: Type):
         self.owner = owner
         self.dependencies = find_all_dependencies(owner, self.func) | self.params
-        _validators[owner].append(self)
+        _validators[owner] = [*_validators[owner], self]  # assignment resets the caches
 
     def __set_name__(self, owner, name):
         self._register(owner)
